@@ -573,6 +573,10 @@ def run_case(case):
             # batched replica (cross-check)
             _, pl_new = ref.split_state(new[i])
             tolB = 1e-12 * max(1.0, float(onp.max(onp.abs(new[i])))) + 2 * ref.TOL_SOLVER * law.Y0 / (3 * law.mu) * ref.SQ32 * max(1.0, _norm2(pl_new))
+            # two valid evaluations of an eigenvector-based tensor function differ by the conditioning of the eigenvectors,
+            # ~ eps / (relative eigenvalue gap); below gap 1e-8 the D8 class takes over
+            if kin == "large" and facts["min_gap"] is not None and facts["min_gap"] < 1e-2:
+                tolB += 256 * ref.EPS / max(facts["min_gap"], 1e-8) * max(1.0, float(onp.max(onp.abs(new[i]))))
             dB = float(onp.max(onp.abs(stB[i] - new[i]))) if onp.all(onp.isfinite(stB[i])) else float("nan")
             mech = D8_KEY if (kin == "large" and facts["repeated_nonaxis"]) else None
             if facts.get("skip_batched"):
